@@ -149,6 +149,14 @@ def check_collect(ctx, model, crate, p, ledger, vault=False):
                                 feeds = True
                     if feeds:
                         zsites.append(b)
+        # ... or `entry.amount = 0` written into (a reference to an element of) the loaded ledger that is saved back
+        for b, i, s in v.iter_stmts():
+            F = v._named_fields(s["lhs"]["p"])
+            if F and F[-1] == "amount" and s["rv"]["r"] in ("use",):
+                if const_of(v, s["rv"]["op"], (b, i)) == 0:
+                    base = v.origins_of_place({"l": s["lhs"]["l"], "p": []}, at=(b, i))
+                    if any(o.kind == "load" and o.a.endswith(ledger) for o in base):
+                        zsites.append(b)
         if not zsites:
             ctx.ob("C07-F3", "%s|reset-iff-transfer" % p, False,
                    "cannot find where the pending ledger entry is zeroed (no Asset{amount: 0} flowing into the %s save)" % ledger.split("::")[-1],
